@@ -9,7 +9,7 @@ Definition qres : Type := (rb * rb * option (list ofact)).
 Definition dquery : Type := (origin * N * rule).        (* trusted, owner, rule *)
 
 Inductive dresult :=
-| DOk (facts : list ofact) (qs : list qres)
+| DOk (facts : list ofact) (qs : list qres) (iterations : N)
 | DErr
 | DPanic.
 
@@ -55,10 +55,11 @@ Definition model_fuel : nat := 400.
 Definition dcase_model (c : dcase) : dresult :=
   let '(facts, rules, qs, rx, _) := c in
   let O := case_oracles rx in
-  match saturate O model_fuel rules (merge [] facts) with
-  | Err _ => DErr
-  | Ok None => DPanic                        (* fuel exhausted: never expected *)
-  | Ok (Some fs) => DOk fs (map (dquery_model O fs) qs)
+  (* the limited loop with non-binding limits: also yields World::iterations *)
+  match run_loop O model_fuel 100000 1000000 0 rules (merge [] facts) with
+  | (RErr (RunExpr _), _) => DErr
+  | (RErr _, _) => DPanic                     (* fuel exhausted: never expected *)
+  | (ROk (fs, _), it) => DOk fs (map (dquery_model O fs) qs) it
   end.
 
 Definition has_error (q : qres) : bool :=
@@ -67,8 +68,8 @@ Definition has_error (q : qres) : bool :=
 
 Definition dagrees (m i : dresult) : bool :=
   match m, i with
-  | DOk f qs, DOk f' qs' =>
-      facts_eq f f' &&
+  | DOk f qs it, DOk f' qs' it' =>
+      facts_eq f f' && N.eqb it it' &&
       (if existsb has_error qs || existsb has_error qs' then (length qs =? length qs')%nat
        else qres_all_eqb qs qs')
   | DErr, DErr => true
